@@ -21,6 +21,7 @@ func checkC15(c *Check) {
 	// NOTIFICATION
 	c.notificationEncode("C15.1 notification-encode")
 	c.codecContracts("C15.1 codec-effects")
+	c.readerFraming("C15.2 message-size-agreement")
 	c.accumulatorsStartEmpty("C15.1 accumulators", "openMessage.encode", "capabilityOptionalParam.encode", "decodeOptionalParams", "capabilityOptionalParam.decode", "openMessage.getCapabilities", "DecodeAddPathTuples", "NewAddPathCapability", "newOpenMessage")
 	c.tlvExactFit("C15.1 optional-parameters exact-fit", "decodeOptionalParams", 0, "capabilityOptionalParam.decode", c.P.MustConst("capabilityOptionalParamType"))
 	c.tlvExactFit("C15.1 capabilities exact-fit", "capabilityOptionalParam.decode", 1, "", -1)
